@@ -98,6 +98,21 @@ class LazyLog2(Poison):
         self.arg = arg
 
 
+def wrap_int(v, dt):
+    """result of C integer arithmetic in dtype dt: the exact value reduced modulo 2^bits (silent wrap-around)"""
+    if _isinstance(v, Poison) or not _isinstance(v, (int, SInt)) or _isinstance(v, bool):
+        return v
+    lo, hi = _int_bounds(dt)
+    vlo, vhi = T.irange(v)
+    if lo <= vlo and vhi <= hi:
+        return v
+    bits = dt.itemsize * 8
+    w = T.imod_pow2(v, bits)
+    if dt.kind == 'u':
+        return w
+    return T.iite(T.icmp(w, 1 << (bits - 1), '<'), w, T.isub(w, 1 << bits))
+
+
 def cast_cell(v, dt, src=None):
     """NumPy cast of one cell to dtype dt (src: source dtype or None for Python objects)"""
     k = dt.kind
@@ -672,15 +687,17 @@ def _leaf_dtype(leaves):
         return _D('U1')
     idt = None
     if ints:
-        # int64 if everything fits; uint64 if non-negative and fits; float64 for a mix of negative and >int64; object beyond
+        # int64 if everything fits; uint64 if every leaf is in [2^63, 2^64); float64 for a mix; object beyond
         big = T.b_or(*[T.icmp(v, 1 << 63, '>=') for v in ints])
         small = T.b_or(*[T.icmp(v, -(1 << 63), '<') for v in ints])
         huge = T.b_or(*[T.icmp(v, 1 << 64, '>=') for v in ints])
         if _b.bool(small) or _b.bool(huge):
             return _OBJ
         if _b.bool(big):
-            neg = T.b_or(*[T.icmp(v, 0, '<') for v in ints])
-            idt = _F64 if _b.bool(neg) else _U64
+            # every leaf is typed on its own (int64 below 2^63, uint64 from there) and the types are promoted:
+            # uint64 only if *all* leaves are >= 2^63, otherwise int64 (+) uint64 -> float64 (np.array([1, 2**63]) is float64)
+            allbig = T.b_and(*[T.icmp(v, 1 << 63, '>=') for v in ints])
+            idt = _U64 if _b.bool(allbig) else _F64
         else:
             idt = _I64
     cands = list(typed)
@@ -967,7 +984,7 @@ def _cell_binop(op, x, y, dt, dx, dy):
             r = T.ipow(x, y)
         else:
             raise OutOfModel('int op %s' % op)
-        return cast_cell(r, dt, dt)
+        return wrap_int(r, dt)
     if k == 'f':
         x, y = _to_kind(x, _F64, dx), _to_kind(y, _F64, dy)
         if _isinstance(x, Poison) or _isinstance(y, Poison):
@@ -1051,7 +1068,7 @@ def _unop(op, a):
             out.append({'neg': _op.neg, 'pos': _op.pos, 'abs': _b.abs, 'invert': _op.invert}[op](c))
         elif k in 'iu':
             r = {'neg': T.ineg, 'pos': lambda v: v, 'abs': T.iabs, 'invert': T.iinv}[op](c)
-            out.append(cast_cell(r, a.dtype, a.dtype))
+            out.append(wrap_int(r, a.dtype))
         elif k == 'f':
             if op == 'invert':
                 raise TypeError("ufunc 'invert' not supported for the input types")
